@@ -426,6 +426,13 @@ def fixed_units():
             ("update", "int", None), ("Order", "int", None), ("key", "varchar", None), ("settings", "int", None), ("goal", "int", None), ("user_id", "int", None),
             ("created_at", "date", None), ("grants", "int", None), ("dropped", "int", None), ("deleted", "int", 0), ("inserted", "int", None),
             ("altered", "int", None), ("used", "int", None), ("go_live", "int", None)]]))]
+    # a literal with an escaped quote (MySQL style) before other literals and sized types: how much white space stands around the
+    # commas / parentheses that follow it does not matter (the value of that one default is C07's business: not stated here)
+    u["table-escaped-quote-first"] = [Stmt("table",
+        "~CREATE ~TABLE esc_q ( note varchar ( 20 ) ~DEFAULT 'it\\'s' , price decimal ( 10 , 2 ) , code char ( 3 ) ~DEFAULT 'x' , b int ~NOT ~NULL ) ;",
+        dict(kind="table", table_name="esc_q", schema=None, columns=[
+            dict(name="note", type="varchar", default=None, ref=None), dict(name="price", type="decimal", default=None, ref=None),
+            dict(name="code", type="char", default="'x'", ref=None), dict(name="b", type="int", default=None, ref=None)]))]
     base = "~CREATE ~TABLE emp ( id int , dept int , code varchar ( 4 ) ) ;"
     bf = dict(kind="table", table_name="emp", schema=None, columns=[dict(name="id", type="int", default=None, ref=None), dict(name="dept", type="int", default=None, ref=None),
                                                                     dict(name="code", type="varchar", default=None, ref=None)])
